@@ -538,8 +538,12 @@ func loRequire(L *LState) int {
 		L.Push(lv)
 		return 1
 	}
-	loaders, ok := L.GetField(L.Get(RegistryIndex), "_LOADERS").(*LTable)
-	if !ok {
+	// read package.loaders on every call: a script may replace the table
+	var loaders *LTable
+	if pkg, ok := loPackage(L).(*LTable); ok {
+		loaders, _ = L.GetField(pkg, "loaders").(*LTable)
+	}
+	if loaders == nil {
 		L.RaiseError("package.loaders must be a table")
 	}
 	messages := []string{}
